@@ -33,6 +33,17 @@ BUILT = {
         note='Trusted: TLC, the exact-kernel interpreter (cos/sin with exact argument reduction), numpy matmul. Bounded: axis lengths <= 6 in / 7 out '
              '(quick), 9/10 (thorough); dyadic Q and shift menus; shifted cases compared in modulus only, as the property allows.',
         technique='TLA+ specs (Dft.tla exact kernels, Executors.tla history machine) checked by TLC; behaviours replayed into prysm; recorded executor traces validated against ExecutorsTrace.tla'),
+    'C02': dict(
+        spec='Dft.tla, Cyclo.tla, FreeSpace.tla, Rat.tla',
+        text='Unitarity and invertibility are proved on the model in exact cyclotomic arithmetic (Cyclo.tla: elements of Z[zeta_L] reduced modulo the '
+             'cyclotomic polynomial): for every band-complete axis kernel E^H E = m I and inverse(Q=1) o forward = identity with norms multiplying to 1/m; '
+             'FftLaw shows the padded FFT is that kernel and that zero padding is injective. FreeSpace.tla carries the angular-spectrum phase table as '
+             'exact rationals and TLC checks phi(0)=0, phi(-z)=-phi(z), phi(z1)+phi(z2)=phi(z1+z2), evenness in f. The emitted configurations are '
+             'replayed into focus/unfocus, mdft/czt pairs, angular_spectrum(_transfer_function) and Wavefront.free_space: values against the exact '
+             'tables, and the laws themselves (energy, inverse, zero distance, undo, additivity) on Gaussian-integer fields.',
+        note='Trusted: TLC, numpy FFT as used by the driver to apply the exact transfer function. Bounded: shapes <= 6 (quick) / 10 (thorough) per axis, '
+             'rational Q with integer nQ, small rational menus for wavelength / spacing / distance; float32 only in the thorough tier.',
+        technique='TLA+ specs (Dft.tla with exact cyclotomic unitarity laws, FreeSpace.tla rational phase table) checked by TLC; emitted configurations and metamorphic laws replayed into prysm'),
 }
 
 NOT_BUILT_REASON = 'not built yet in this round (specification planned in DESIGN.md section 4; never decided by another technique)'
